@@ -9,7 +9,7 @@ use yata::methods::*;
 /// order-preserving embeddings of ranks into floats; rank 0 <-> +-0.0
 #[derive(Clone, Copy, Debug)]
 pub struct Emb(pub u8);
-pub const EMBS: u8 = 9;
+pub const EMBS: u8 = 11;
 pub const LINEAR_EMBS: [u8; 3] = [0, 1, 2];
 
 impl Emb {
@@ -28,6 +28,9 @@ impl Emb {
 			3 => x * x * x,
 			4 => x * 0.1,
 			5 => x * 333_333.333_333_333_3,
+			// magnitudes whose products under- / overflow (a decaying oscillator late in a stream; a sign test written as a product)
+			9 => x * 1e-170,
+			10 => x * 1e160,
 			// "ugly" monotone odd tables: full mantissas, irregular gaps (rounding of sums/differences shows)
 			k => {
 				let a = r.unsigned_abs();
@@ -298,7 +301,56 @@ pub fn replay(args: &[String]) {
 			}
 		}
 	}
-	out.summary(json!({"behaviours": rows.len(), "calls": calls, "embeddings": EMBS}));
+	// Reversal detectors renumber their position counters when they reach the capacity of PeriodType: every enumerated
+	// behaviour is replayed again LATE in a stream -- after so many copies of the construction value (a constant prehistory
+	// changes no output of the definition) that the renumbering step falls on each position of the behaviour in turn
+	let mut late_runs = 0u64;
+	if std::env::var("YV_LATE").is_ok() {
+		for b in &rows {
+			let subject = b["subject"].as_str().unwrap();
+			if !subject.contains("Reversal") {
+				continue;
+			}
+			let p = params_of(b);
+			let xs = b["xs"].as_array().unwrap();
+			let ys = b["ys"].as_array().unwrap();
+			let wl = p.iter().sum::<u64>() + 1;
+			let cap = PeriodType::MAX as u64;
+			let mut starts: Vec<u64> = Vec::new();
+			for j in 0..=(xs.len() as u64 + 1) {
+				starts.push((cap - 1).saturating_sub(j));
+				starts.push((cap - 1 + (cap + 1 - wl)).saturating_sub(j));
+			}
+			let emb = Emb(0);
+			for l in starts {
+				let Ok(Ok(mut m)) = Subj::new(subject, &p, emb, &b["init"]) else { continue };
+				let mut alive = true;
+				for _ in 0..l {
+					alive = alive && m.next(emb, &b["init"]).is_ok();
+				}
+				if !alive {
+					out.mismatch(&format!("{subject}:next-late:panic"), json!({"params": p, "init": b["init"], "prefix": l}));
+					continue;
+				}
+				late_runs += 1;
+				for (i, x) in xs.iter().enumerate() {
+					let r = m.next(emb, x);
+					calls += 1;
+					out.checked += 1;
+					let ok = match &r {
+						Ok(raw) => matches(subject, emb, &ys[i], raw),
+						Err(_) => false,
+					};
+					if !ok {
+						out.mismatch(&format!("{subject}:next-late:{}", if r.is_err() { "panic" } else { "value" }),
+							json!({"params": p, "init": b["init"], "prefix_copies_of_init": l, "xs": xs[..=i], "step": i, "expected": ys[i], "actual": raw_json(&r)}));
+						break;
+					}
+				}
+			}
+		}
+	}
+	out.summary(json!({"behaviours": rows.len(), "calls": calls, "embeddings": EMBS, "late_runs": late_runs}));
 }
 
 // ------------------------------------------------------------------ direction B
